@@ -62,7 +62,11 @@ where
     }
 
     pub fn set_datarate(&mut self, datarate: region::DR) {
-        self.shared.mac.configuration.data_rate = datarate
+        // a data rate the region does not define for uplinks is ignored (it would panic or
+        // transmit with a downlink-only modulation at the next send)
+        if self.shared.mac.region.uplink_datarate_valid(datarate) {
+            self.shared.mac.configuration.data_rate = datarate
+        }
     }
 
     /// Whether Adaptive Data Rate (ADR) is enabled.
